@@ -6,7 +6,7 @@ import json
 import random
 
 import tv
-from common import (NCPU, MachineryError, cached, drive, run_parallel, tagged_lines, tlc, tlc_ok,
+from common import (NCPU, NSHARDS, shard_hashseed, MachineryError, cached, drive, run_parallel, tagged_lines, tlc, tlc_ok,
                     tlc_violation)
 
 
@@ -32,7 +32,7 @@ def gen(wd, family: str, mode: str, *, rnd_seed=None, rndn=5, rndk=4):
         return {"items": items, "generated": r["generated"], "distinct": r["distinct"]}
     if rnd_seed is not None:
         return go(), False
-    return cached(f"idgen-{family}-{mode}", go)
+    return cached(f"idgen-{family}-{mode}", go, module="IDGen")
 
 
 def mc(wd, family: str, mode: str, seeds=(1, 2)):
@@ -50,22 +50,22 @@ def mc(wd, family: str, mode: str, seeds=(1, 2)):
         tlc_ok(r, f"IDMachine {family} {mode}")
         return {"generated": r["generated"], "distinct": r["distinct"], "family": family, "mode": mode,
                 "invariants": invs}
-    return cached(f"idmc-{family}-{mode}", go)
+    return cached(f"idmc-{family}-{mode}", go, module="IDMachine")
 
 
 def run_y0(wd, items: list[dict], n_orders: int, semantic: bool, tag: str) -> list[dict]:
     """Call the real y0 on every query of every item; returns TV groups (records carry ids gid:qi:order)."""
-    shards = [items[i::NCPU] for i in range(NCPU)]
+    shards = [items[i::NSHARDS] for i in range(NSHARDS)]
     jobs = []
     for i, sh in enumerate(shards):
         if not sh:
             continue
         f = wd / f"{tag}-in{i}.json"
         f.write_text(json.dumps([{"g": it["g"], "gid": it["gid"], "qs": [q[:3] for q in it["qs"]]} for it in sh]))
-        jobs.append((f, wd / f"{tag}-out{i}.json"))
+        jobs.append((f, wd / f"{tag}-out{i}.json", i))
 
     def one(job):
-        drive("drive_id.py", [str(job[0]), str(job[1]), str(n_orders), "1" if semantic else "0"])
+        drive("drive_id.py", [str(job[0]), str(job[1]), str(n_orders), "1" if semantic else "0"], hashseed=shard_hashseed(job[2]))
         return json.loads(job[1].read_text())
 
     groups = []
